@@ -21,6 +21,7 @@ func (a *Act) instr(st *State, b *ssa.BasicBlock, instr ssa.Instruction) {
 		a.curPos = instr.Pos()
 	}
 	a.cur = st
+	a.curBlock = b
 	if a.contract != nil && len(a.contract.atAssumes) > 0 && instr.Pos().IsValid() {
 		pp := tr.eng.fset.Position(instr.Pos())
 		_, src := a.srcLine(instr.Pos())
@@ -611,28 +612,7 @@ func (a *Act) mapLen(st *State, mt *types.Map, m Term) Term {
 	l := Ite(Eq(m, "0"), "0", tr.read(tr.heapOf(st, ln), m))
 	l = tr.define("maplen", "Int", l)
 	tr.assume(Implies(st.reach, app(">=", l, "0")), "map length non-negative")
-	// finite-map cardinality lemma, instantiated for every pair of maps whose lengths are taken
-	dom, _, _ := tr.mapComps(mt)
-	hd := tr.heapOf(st, dom)
-	for _, p := range tr.mapLens {
-		if p.dom != hd || p.m == m {
-			continue
-		}
-		tr.fresh++
-		bv := fmt.Sprintf("q_card_%d", tr.fresh)
-		tr.boundVars = append(tr.boundVars, bv)
-		inA := And(Not(Eq(m, "0")), tr.read(hd, m, bv))
-		inB := And(Not(Eq(p.m, "0")), tr.read(hd, p.m, bv))
-		ks := a.sortOf(mt.Key())
-		sameDom := fmt.Sprintf("(forall ((%s %s)) (= %s %s))", bv, ks, inA, inB)
-		subAB := fmt.Sprintf("(forall ((%s %s)) (=> %s %s))", bv, ks, inA, inB)
-		subBA := fmt.Sprintf("(forall ((%s %s)) (=> %s %s))", bv, ks, inB, inA)
-		tr.boundVars = tr.boundVars[:len(tr.boundVars)-1]
-		tr.assume(Implies(sameDom, Eq(l, p.l)), "finite maps: equal domains have equal size")
-		tr.assume(Implies(And(Eq(l, p.l), subAB), sameDom), "finite maps: a subset of equal size is the whole set")
-		tr.assume(Implies(And(Eq(l, p.l), subBA), sameDom), "finite maps: a subset of equal size is the whole set")
-	}
-	tr.mapLens = append(tr.mapLens, mapLenRec{m: m, l: l, dom: hd})
+	a.tr.cardLemma(st, mt, m, l)
 	return l
 }
 
@@ -676,6 +656,12 @@ func (a *Act) next(st *State, in *ssa.Next) {
 	if li != nil && li.visName != "" {
 		vis := li.visName
 		li.visBack = func(x Term) Term { return Or(app(vis, x), Eq(x, k)) }
+		if li.visCountHead != "" {
+			// when the range ends, the number of keys yielded is the size of the map
+			tr.assume(Implies(And(st.reach, Not(ok)), Eq(li.visCountHead, ml)), "range yields exactly len(m) keys")
+			tr.assume(Implies(st.reach, And(app(">=", li.visCountHead, "0"), app("<=", li.visCountHead, ml))), "keys yielded so far")
+			tr.assume(Implies(And(st.reach, ok), app("<", li.visCountHead, ml)), "a key is yielded only while some remain")
+		}
 		tr.assume(Implies(And(st.reach, ok), Not(app(vis, k))), "range yields each key once")
 		tr.fresh++
 		bv := fmt.Sprintf("q_rk_%d", tr.fresh)
@@ -765,4 +751,35 @@ func (a *Act) occurrenceOf(file string, line int, text string) int {
 		}
 	}
 	return n
+}
+
+// cardLemma: finite-map cardinality lemma, instantiated for every pair of maps whose lengths are taken
+// in the same heap version.
+func (tr *Tr) cardLemma(st *State, mt *types.Map, m, l Term) {
+	dom, _, _ := tr.mapComps(mt)
+	hd := tr.heapOf(st, dom)
+	for _, p := range tr.mapLens {
+		if p.dom == hd && p.m == m {
+			return
+		}
+	}
+	ks := tr.eng.sorts.sortOf(mt.Key())
+	for _, p := range tr.mapLens {
+		if p.dom != hd || p.m == m {
+			continue
+		}
+		tr.fresh++
+		bv := fmt.Sprintf("q_card_%d", tr.fresh)
+		tr.boundVars = append(tr.boundVars, bv)
+		inA := And(Not(Eq(m, "0")), tr.read(hd, m, bv))
+		inB := And(Not(Eq(p.m, "0")), tr.read(hd, p.m, bv))
+		sameDom := fmt.Sprintf("(forall ((%s %s)) (= %s %s))", bv, ks, inA, inB)
+		subAB := fmt.Sprintf("(forall ((%s %s)) (=> %s %s))", bv, ks, inA, inB)
+		subBA := fmt.Sprintf("(forall ((%s %s)) (=> %s %s))", bv, ks, inB, inA)
+		tr.boundVars = tr.boundVars[:len(tr.boundVars)-1]
+		tr.assume(Implies(sameDom, Eq(l, p.l)), "finite maps: equal domains have equal size")
+		tr.assume(Implies(And(Eq(l, p.l), subAB), sameDom), "finite maps: a subset of equal size is the whole set")
+		tr.assume(Implies(And(Eq(l, p.l), subBA), sameDom), "finite maps: a subset of equal size is the whole set")
+	}
+	tr.mapLens = append(tr.mapLens, mapLenRec{m: m, l: l, dom: hd})
 }
